@@ -233,10 +233,11 @@ impl Bitstr {
                 pos += n;
             }
         } else {
-            for byte in data_bytes {
-                let (val, n) = cut_bits(*byte, pos, end);
-                acc |= (val as u128) << (pos - self.start()) as u32;
-                pos += n;
+            // little-endian groups are aligned to the value, not to the backing bytes
+            let mut shift = 0;
+            for (val, n) in self.iter8() {
+                acc |= (val as u128) << shift;
+                shift += n;
             }
         }
         acc
